@@ -663,9 +663,10 @@ package pokertable
 //@ spec inPS(te, p) = exists(j, 0, 10, j < len(PS(te)) && PS(te)[j] == p)
 
 //@ func (*tableEngine).batchRemovePlayers
+//@   retsplit
 //@   property C01 C03
 //@   returns err
-//@   config M 2..10 quick 2..5 : te.table.Meta.TableMaxSeatCount = M, te.sm.MaxSeat = M, len(te.sm.SeatData) = M
+//@   config M 2..10 quick 2..6 : te.table.Meta.TableMaxSeatCount = M, te.sm.MaxSeat = M, len(te.sm.SeatData) = M
 //@   requires TableWF(te) && Coupled(te) && HandShape(te) && 0 <= len(playerIDs) && len(playerIDs) <= MaxSeats(te)
 //@   modifies St(te).PlayerStates, St(te).SeatMap, St(te).GamePlayerIndexes, te.sm.SeatData[all]
 //@   ensures inv: TableWF(te) && Coupled(te)
@@ -899,8 +900,8 @@ package pokertable
 //@   partial discharged for seat counts 2..3 (every dealer / big-blind seat); larger tables exceed the solver budget and are a bounded stand-in, not a proof
 //@   config M 2..3 quick 2..2 : maxSeatCount = M, te.sm.MaxSeat = M, len(te.sm.SeatData) = M
 //@   split D 0..M-1 : currentDealerSeatID = D
-//@   split B 0..M-1 : currentBBSeatID = B
-//@   requires te != nil && ref(te.sm) != 0 && typeis(te.sm, "*seat_manager.seatManager") && SmWF(te.sm) && te.sm.IsInit && rule != CompetitionRule_ShortDeck && te.sm.Rule == "default"
+//@   split B -1..M-1 : currentBBSeatID = B
+//@   requires te != nil && ref(te.sm) != 0 && typeis(te.sm, "*seat_manager.seatManager") && SmWF(te.sm) && te.sm.IsInit && (rule == CompetitionRule_ShortDeck ==> te.sm.Rule == "short_deck") && (rule != CompetitionRule_ShortDeck ==> te.sm.Rule == "default")
 //@   requires 2 <= maxSeatCount && maxSeatCount <= 10 && LayoutOK(te, maxSeatCount, seatMap, players) && activeCount(te.sm) >= 2
 //@   requires currentDealerSeatID == te.sm.DealerSeatID && currentSBSeatID == te.sm.SBSeatID && currentBBSeatID == te.sm.BBSeatID
 //@   modifies nothing
@@ -1166,9 +1167,10 @@ package pokertable
 //@   inline
 
 //@ func (*tableEngine).UpdateTablePlayers
+//@   retsplit
 //@   property C03 C16
 //@   returns seats, err
-//@   config M 2..5 quick 2..3 : te.table.Meta.TableMaxSeatCount = M, te.sm.MaxSeat = M, len(te.sm.SeatData) = M, len(te.table.State.SeatMap) = M
+//@   config M 2..3 : te.table.Meta.TableMaxSeatCount = M, te.sm.MaxSeat = M, len(te.sm.SeatData) = M, len(te.table.State.SeatMap) = M
 //@   requires TableWF(te) && Coupled(te) && HandShape(te) && te.rg != nil && !held(te.lock)
 //@   requires 0 <= len(leavePlayerIDs) && len(leavePlayerIDs) <= MaxSeats(te) && batchOK(te, joinPlayers)
 //@   guarded te.lock : "pokertable.tableEngine.table", "pokertable.tableEngine.sm", "pokertable.Table.", "pokertable.TableState.", "pokertable.TablePlayerState."
